@@ -76,7 +76,8 @@ pub fn check_li(r: &mut Recorder, input: &[u8], exp: &Value) {
                 Ok(Err(e)) => r.dis(&["C02", "C04"], "li-canonicalize-err", det(input, json!(ser), json!(format!("{:?}", e)))),
                 Err(at) => r.dis(&["C01"], &format!("panic@{}", short_at(&at)), det(input, json!(null), json!({"api":"canonicalize","panic":at}))),
             }
-            // round trip (C05) and comparison with &str (C12)
+            // round trip (C05) and comparison with &str (C12); rejected calls first (see poison())
+            poison(r);
             match guard(|| LanguageIdentifier::from_bytes(ser.as_bytes())) {
                 Ok(Ok(v2)) => {
                     if &v2 != v {
@@ -135,6 +136,42 @@ pub fn check_li(r: &mut Recorder, input: &[u8], exp: &Value) {
     }
 }
 
+/// REJECTED calls that push as much as they can before they fail (the same texts are checked to be ill-formed on the
+/// specification: MC_Long.tla, PoisonLI / PoisonLoc / PoisonExt).  Run straight before a round trip that is about to be
+/// judged: whatever a failed call leaves behind in the library (a scratch buffer drained on success only, a half-updated
+/// memo) lands in the very next successful call -- which then is the one under judgement.
+pub fn poison_calls() -> Vec<String> {
+    const LI: &[&[u8]] = &[b"zz-Zzzz-ZZ-poisonv1-poisonv2-u", b"zz-poisonv1-1xyz-!!", b"zz-poisonv3-u-ca-gregory"];
+    const LOC: &[&[u8]] = &[b"zz-u-poisona1-poisona2-h0", b"zz-u-ca-poisont1-!!", b"zz-t-zz-poisonv4-h0-poisontv-!!",
+                            b"zz-t-h0-poisontv-!!", b"zz-x-poisonp1-toolongpoison", b"zz-poisonv5-poisonv6-u-!!"];
+    const EXT: &[&[u8]] = &[b"u-poisona3-h0", b"t-h0-poisontv-!!", b"x-poisonp2-toolongpoison"];
+    let mut accepted: Vec<String> = Vec::new();
+    for p in LI { if LanguageIdentifier::from_bytes(p).is_ok() { accepted.push(show(p)); } }
+    for p in LOC { if Locale::from_bytes(p).is_ok() { accepted.push(show(p)); } }
+    for p in EXT { if ExtensionsMap::from_bytes(p).is_ok() { accepted.push(show(p)); } }
+    // failing mutator calls on a scratch value: valid members first, the malformed one last
+    let mut scratch = Locale::default();
+    let _ = scratch.extensions.unicode.set_keyword("ca", &["poisonk1", "poisonk2", "!"]);
+    let _ = scratch.extensions.transform.set_tfield("h0", &["poisonf1", "poisonf2", "!"]);
+    let _ = scratch.extensions.unicode.set_attribute("poison!");
+    let _ = scratch.extensions.private.add_tag("toolongpoison");
+    let _ = scratch.extensions.unicode.set_keyword("!", &["poisonk3"]);
+    let _ = scratch.extensions.transform.set_tfield("!", &["poisonf3"]);
+    if !scratch.extensions.is_empty() { accepted.push(format!("mutators: {}", scratch)); }
+    let _ = Language::from_bytes(b"poison!");
+    let _ = Variant::from_bytes(b"poisonvr!");
+    accepted
+}
+
+pub fn poison(r: &mut Recorder) {
+    r.stat("poisoned_round_trips");
+    match guard(poison_calls) {
+        Ok(a) if a.is_empty() => {}
+        Ok(a) => r.dis(&["C03", "C10"], "ill-formed-poison-accepted", json!({"accepted": a})),
+        Err(at) => r.dis(&["C01"], &format!("panic@{}", short_at(&at)), json!({"api": "rejected calls (poison battery)", "panic": at})),
+    }
+}
+
 /// C13: whatever LanguageIdentifier accepts, Locale accepts with an identical id, no extensions and the same text
 fn li_vs_locale(r: &mut Recorder, input: &[u8], v: &LanguageIdentifier) {
     let p = proj_li(v);
@@ -164,6 +201,7 @@ fn li_vs_locale(r: &mut Recorder, input: &[u8], v: &LanguageIdentifier) {
 pub fn check_loc_value(r: &mut Recorder, input: &[u8], l: &Locale, tag: &str) {
     r.pool_add(l);
     let ser = l.to_string();
+    poison(r);
     match guard(|| Locale::from_bytes(ser.as_bytes())) {
         Ok(Ok(l2)) => {
             if &l2 != l || l2.to_string() != ser {
@@ -175,6 +213,7 @@ pub fn check_loc_value(r: &mut Recorder, input: &[u8], l: &Locale, tag: &str) {
     }
     // ExtensionsMap text (with its leading '-') re-parses to the same map (C05, C17)
     let es = l.extensions.to_string();
+    poison(r);
     match guard(|| ExtensionsMap::from_bytes(es.as_bytes())) {
         Ok(Ok(e2)) => {
             if e2 != l.extensions {
